@@ -87,7 +87,9 @@ def build_direct(specs, idx, classes):
     if spec["base"] == "data":
         ns.update(type_id=spec.get("type_id", 0), type_name=spec["name"], type_hash=spec.get("type_hash", 0),
                   type_size=-1, type_source="", type_def="")
-        return MessageMeta(spec["name"], (MessageData,), ns)
+        c = MessageMeta(spec["name"], (MessageData,), ns)
+        c.type_size = ctypes.sizeof(c)          # as the definition compiler does (0 for a signal)
+        return c
     return MessageMeta(spec["name"], (MessageBase,), ns)
 
 
@@ -116,9 +118,12 @@ def yaml_for(specs, indices):
         lines = [f"  {s['name']}:"]
         if s["base"] == "data":
             lines.append(f"    id: {s['type_id']}")
-        lines.append("    fields:")
-        for fname, ts in s["fields"]:
-            lines.append(f"      {fname}: {ftext(ts)}")
+        if s["fields"]:
+            lines.append("    fields:")
+            for fname, ts in s["fields"]:
+                lines.append(f"      {fname}: {ftext(ts)}")
+        else:
+            lines.append("    fields: null")
         (md if s["base"] == "data" else sd).append("\n".join(lines))
     out = ""
     if sd:
@@ -207,7 +212,7 @@ def import_classes(modnames, first_index):
         except Exception:  # shipped definitions that do not import are another property's business
             continue
         cs = [c for _, c in sorted(vars(mod).items()) if isinstance(c, type) and issubclass(c, MessageBase)
-              and c.__module__ == mod.__name__ and c._fields_]
+              and c.__module__ == mod.__name__]
         found += cs
     index_of = {c: first_index + i for i, c in enumerate(found)}
     specs = []
@@ -582,6 +587,14 @@ def run_codec(c, classes):
                                      cls=type(m2.data).__name__)
             except Exception as e:  # noqa
                 res["msg_rt"] = dict(code=exc_code(e), exc=type(e).__name__, msg=str(e)[:160])
+            # the same JSON without its "data" member (what a web client may send for a signal)
+            try:
+                j = json.loads(full.to_json(minify=True))
+                j.pop("data", None)
+                m3 = Message.from_json(json.dumps(j))
+                res["msg_rt_nodata"] = dict(code=0, hdr=bytes(m3.header).hex(), data=bytes(m3.data).hex())
+            except Exception as e:  # noqa
+                res["msg_rt_nodata"] = dict(code=exc_code(e), exc=type(e).__name__)
             try:
                 cp = Message.copy(full)
                 r = dict(code=0, hdr=bytes(cp.header).hex(), data=bytes(cp.data).hex())
